@@ -304,7 +304,9 @@ type c02Fixture struct {
 	issuer  string        // this authorization server's issuer URL (for subject "verifier")
 }
 
-func c02NewFixture(x *h.Ctx, policyJSON []byte) *c02Fixture {
+// c02NewFixture returns an error (and no fixture) when the real policy backend refuses the generated policy directory:
+// the property does not oblige the node to accept a policy.
+func c02NewFixture(x *h.Ctx, policyJSON []byte) (*c02Fixture, error) {
 	c02Setup(x.TB)
 	fx := &c02Fixture{revoked: &c02RevStore{revoked: map[string]bool{}}}
 
@@ -314,7 +316,7 @@ func c02NewFixture(x *h.Ctx, policyJSON []byte) *c02Fixture {
 	pdp := policy.New()
 	pdp.Config().(*policy.Config).Directory = dir
 	if err := pdp.Configure(core.ServerConfig{}); err != nil {
-		x.Fatalf("generated policy directory rejected by the real policy backend: %v\n%s", err, policyJSON)
+		return nil, err
 	}
 
 	// real verifier
@@ -341,7 +343,7 @@ func c02NewFixture(x *h.Ctx, policyJSON []byte) *c02Fixture {
 	fx.forger = holder.NewMemoryWallet(c02JSONLD.DocumentLoader(), c02KeyRes, c02Signer{forge: true}, nil)
 	u := fx.w.subjectToBaseURL(c02VerifierSubject)
 	fx.issuer = u.String()
-	return fx
+	return fx, nil
 }
 
 // storeKeys lists the live session-store keys with the given prefix (e.g. "serveraccesstoken/").
